@@ -434,6 +434,10 @@ def main(tier):
         items.append(("gen", bname, prog, timeout_ms))
     chains = [x for x in fam if x[0] in ("plain", "cond")]
     rng.shuffle(chains)
+    # programs without a salt (or with the empty one) come first: there the key consists of the field values alone, which is
+    # where a key that collapses to nothing / None turns the draw random
+    unsalted = [x for x in chains if x[1].salt in (None, "")]
+    chains = unsalted[:12] + [x for x in chains if x not in unsalted[:12]]
     for bname, prog in chains[: (200 if tier == "thorough" else 24)]:
         sorts = ["str", "int", "fp", "true", "none"]
         combos = list(itertools.product(sorts, repeat=len(prog.splitters)))
